@@ -3,6 +3,7 @@ package main
 import (
 	"strings"
 
+	"verif/engine/core"
 	"verif/engine/peg"
 	"verif/engine/rtapi"
 )
@@ -146,6 +147,57 @@ func runC12(c *ShardCtx) {
 						runGrammar(c, g, &f)
 					}
 				}
+			}
+		}
+	}
+	// left-recursive rules (-support-left-recursion): the failures recorded inside every growth
+	// iteration count - also those of iterations before the last, whose interior is answered from
+	// the seed afterwards, and those of an operand that looked ahead further than it finally
+	// consumed; the leader reached a second time at the same offset (under a predicate first, or
+	// in a later alternative)
+	{
+		lit := peg.Lit
+		type lrDef struct {
+			rules  []*peg.Rule
+			leader string
+		}
+		defs := []lrDef{
+			{rules: []*peg.Rule{{Name: "E", Expr: peg.Choice(peg.Seq(peg.Ref("E"), lit("b"), peg.Ref("N")), peg.Ref("N"))}, {Name: "N", Expr: peg.Seq(lit("a"), peg.Opt(peg.Seq(lit("\n"), lit("a"))))}}},
+			{rules: []*peg.Rule{{Name: "E", Expr: peg.Choice(peg.Seq(peg.Ref("E"), peg.Ref("N")), peg.Ref("N"))}, {Name: "N", Display: "an N", Expr: peg.Seq(peg.Cls(false, false, "a"), peg.Opt(peg.Seq(lit("b"), peg.Not(lit("b")))))}}},
+			{rules: []*peg.Rule{{Name: "E", Expr: peg.Choice(peg.Seq(peg.Ref("F"), lit("b")), lit("a"))}, {Name: "F", Expr: peg.Choice(peg.Seq(peg.Ref("E"), lit("a"), lit("a")), peg.Ref("E"))}}, leader: "E"},
+		}
+		enL := peg.NewEnumerator(peg.Alphabet{Leaves: []*peg.Expr{peg.Ref("E"), lit("a"), lit("b"), peg.Not(peg.Any())}, Unary: []peg.Kind{peg.KNot, peg.KAnd, peg.KOpt}, Seq: true, Choice: true, MaxArity: 3})
+		nl := 4
+		if c.Thorough() {
+			nl = 5
+		}
+		famL := *fam
+		famL.gens = []core.Gen{{LeftRec: true}, {LeftRec: true, Optimize: true}}
+		famL.inputs = peg.Inputs([]string{"a", "b", "\n"}, 4)
+		famL.opts = []rtapi.RunOpts{{MaxExpr: 4000, Filename: "in.txt"}}
+		famL.confEvery = 41
+		for _, body := range enL.UpTo(nl) {
+			if len(peg.RefsOf(body)) == 0 {
+				continue
+			}
+			for _, d := range defs {
+				idx++
+				if !c.Mine(idx) {
+					continue
+				}
+				if c.Expired("left-recursive family") {
+					return
+				}
+				g := &peg.Grammar{Rules: append([]*peg.Rule{{Name: "S", Expr: body}}, d.rules...)}
+				f := famL
+				if d.leader != "" {
+					ld := d.leader
+					f.refOpts = func(o *peg.Options) { o.LeaderHeads = map[string]bool{ld: true} }
+				}
+				if g.Has(peg.KClass) {
+					f.gens = append(append([]core.Gen{}, f.gens...), core.Gen{LeftRec: true, BasicLatin: true})
+				}
+				runGrammar(c, g.Clone(), &f)
 			}
 		}
 	}
